@@ -297,6 +297,14 @@ def finish(prop, tier, t0, cov, violations, known, broken):
         broken += wbroken
         for pred, detail, path in wviol:
             violations.append(({"op": "wheel", "pre": "", "field": pred, "want": "", "got": str(detail)[:300], "cfg": None}, path))
+        # concurrent form of "a cache that never exceeds its maximum loses nothing to size eviction"
+        import wrcheck
+        ccov, cviol, cbroken = wrcheck.run("C07", tier, None, collect_only=True)
+        cov["concurrent_audits"] = ccov["traces_validated_against_impl"]
+        cov["traces_validated_against_impl"] += ccov["traces_validated_against_impl"]
+        broken += cbroken
+        for x, sc, path in cviol:
+            violations.append(({"op": "concurrent", "pre": "", "field": x["pred"], "want": "", "got": x["detail"], "cfg": sc.get("size")}, path))
     if prop == "C08" and not broken:
         # concurrent half of C08 (the larger one): gate-scheduled loads racing writes, judged by LoadHist.tla
         import loadcheck
